@@ -251,6 +251,44 @@ func (rc *rawClient) listenUDP() (int, error) {
 	return p, nil
 }
 
+var ownerNoMulticast atomic.Bool
+
+// joinMulticast listens on the group the server announced (first interface that can do multicast).
+func (rc *rawClient) joinMulticast(dest string, port int) error {
+	ifs, err := net.Interfaces()
+	if err != nil {
+		return err
+	}
+	var lastErr error = fmt.Errorf("no multicast-capable interface")
+	for i := range ifs {
+		if ifs[i].Flags&net.FlagMulticast == 0 || ifs[i].Flags&net.FlagUp == 0 {
+			continue
+		}
+		pc, err := net.ListenMulticastUDP("udp4", &ifs[i], &net.UDPAddr{IP: net.ParseIP(dest), Port: port})
+		if err != nil {
+			lastErr = err
+			continue
+		}
+		rc.udpRTP = pc
+		rc.udpRTCP, _ = net.ListenUDP("udp4", &net.UDPAddr{IP: net.IPv4(127, 0, 0, 1), Port: 0})
+		go func() {
+			buf := make([]byte, 2048)
+			for {
+				n, _, err := pc.ReadFromUDP(buf)
+				if err != nil {
+					return
+				}
+				var p rtp.Packet
+				if p.Unmarshal(buf[:n]) == nil {
+					rc.log.addRTP(p.SequenceNumber)
+				}
+			}
+		}()
+		return nil
+	}
+	return lastErr
+}
+
 func (rc *rawClient) do(method base.Method, u string, hdr base.Header, body []byte) (*base.Response, error) {
 	pu, err := base.ParseURL(u)
 	if err != nil {
@@ -563,6 +601,9 @@ func runOwnerServer(c *corr.Ctx, oc *OwnerCase) {
 		}
 		th.Protocol = headers.TransportProtocolUDP
 		th.ClientPorts = &[2]int{p, p + 1}
+	case "multicast":
+		th.Protocol = headers.TransportProtocolUDP
+		th.Delivery = new(headers.TransportDeliveryMulticast)
 	}
 	res, err := rc.do(base.Setup, u+"/trackID=0", base.Header{"Transport": th.Marshal()}, nil)
 	if err != nil || res.StatusCode != base.StatusOK {
@@ -575,8 +616,29 @@ func runOwnerServer(c *corr.Ctx, oc *OwnerCase) {
 		return
 	}
 	rc.session = sx.Session
-	active := false
 	var expected []uint16
+	mcast := oc.Transport == "multicast"
+	if mcast {
+		// the stream's multicast writer owns the queue: it exists from the first SETUP to the end of the
+		// last multicast reader and sends whatever is written, whatever PLAY / PAUSE the reader sends
+		var rth headers.Transport
+		if err := rth.Unmarshal(res.Header["Transport"]); err != nil || rth.Destination2 == nil || rth.Ports == nil {
+			fail("SETUP (multicast Transport header)", nil, fmt.Errorf("%v %v", err, res.Header["Transport"]))
+			return
+		}
+		if err := rc.joinMulticast(*rth.Destination2, rth.Ports[0]); err != nil {
+			c.Note("multicast owner scenario skipped: " + err.Error())
+			ownerNoMulticast.Store(true)
+			return
+		}
+		r.checkConsumers(0, 1, "SETUP")
+		r.checkDelivery(0, true, oc.Writes, func(p *rtp.Packet) error { return srv.h.stream.WritePacketRTP(srv.media, p) }, rc.log, srv.h.writeErrs.Load)
+		if r.bad {
+			return
+		}
+		expected, _ = rc.log.snapshot()
+	}
+	active := false
 	for i, req := range oc.Seq {
 		method := map[string]base.Method{"PLAY": base.Play, "PAUSE": base.Pause, "RECORD": base.Record}[req]
 		res, err := rc.do(method, u, nil, nil)
@@ -584,7 +646,7 @@ func runOwnerServer(c *corr.Ctx, oc *OwnerCase) {
 			fail(fmt.Sprintf("request #%d %s", i+1, req), res, err)
 			return
 		}
-		active = req != "PAUSE"
+		active = req != "PAUSE" || mcast
 		want := 0
 		if active {
 			want = 1
@@ -798,6 +860,12 @@ func ownerScenarios(c *corr.Ctx, maxLen int) {
 		return true
 	}
 	anySeq := func([]string) bool { return true }
+	for _, sq := range ownerSeqs([]string{"PLAY", "PAUSE"}, maxLen, anySeq) {
+		if enough() || ownerNoMulticast.Load() {
+			break
+		}
+		runOwner(c, &OwnerCase{Kind: "owner", Side: "server-play", Transport: "multicast", Seq: sq, Writes: 12})
+	}
 	for _, tr := range []string{"tcp", "udp"} {
 		for _, sq := range ownerSeqs([]string{"PLAY", "PAUSE"}, maxLen, anySeq) {
 			if enough() {
